@@ -521,6 +521,9 @@ static Verdict run(const Case& c)
    sp.setRealParam(SoPlex::FEASTOL, 0.0);
    sp.setRealParam(SoPlex::OPTTOL, 0.0);
    sp.setIntParam(SoPlex::ITERLIMIT, 20000);
+   // the refinement loop has no finite termination criterion with zero tolerances; whether every LP is decided is C03's
+   // claim, here an undecided solve is just an unusable basis source
+   sp.setIntParam(SoPlex::REFLIMIT, 200);
    std::string perr;
    if(!applyParams(sp, c, &perr))   // optional `rec int|bool|real <id> <v>` records
    {
